@@ -13,7 +13,9 @@ mcCallsS ==
 mcAdvC == {}
 mcAdvS ==
   Singles({ASet(<<<<4, 3>>>>), ASet(<<<<4, 70000>>>>), ASet(<<<<2, 0>>>>), ASet(<<<<3, 1>>>>), ASet(<<<<3, 0>>>>),
-           AWU(2, 5), AWU(2, 2147483647), ARst(2, 8), AD(2, 1, FALSE, -1), AH(2, "resp200", FALSE)})
+           AWU(2, 5), AWU(2, 2147483647), ARst(2, 8), AD(2, 1, FALSE, -1), AH(2, "resp200", FALSE),
+           \* the client sends HEADERS on the pushed (even) stream: while reserved, after it was reset or ended, after it was collected
+           AH(2, "req_get", FALSE), AH(2, "trl", TRUE), AH(3, "req_get", TRUE)})
 mcSetup == Handshake("s", <<>>) \o <<CRecv("s", <<AH(1, "req_get", FALSE)>>)>>
 mcQSids == <<1, 2, 4>>
 mcCfgC == DefaultCfg
